@@ -199,7 +199,30 @@ type metaJSON struct {
 }
 
 // dump renders the whole key space as the model's T_of_kv does.
-func dumpStore(st store.Store) (res T, err error) {
+// dumpStore with a deadline: a read transaction can block behind a wedged writer (bbolt waiting to remap)
+func dumpStore(st store.Store) (T, error) {
+	type out struct {
+		t   T
+		err error
+	}
+	ch := make(chan out, 1)
+	go func() {
+		t, err := dumpStoreRaw(st)
+		ch <- out{t, err}
+	}()
+	select {
+	case o := <-ch:
+		return o.t, o.err
+	case <-time.After(30 * time.Second):
+		storeBlocked = true
+		return []T{}, fmt.Errorf("store dump did not return within 30s")
+	}
+}
+
+// set when a raw read of the store blocked: the streams report it
+var storeBlocked bool
+
+func dumpStoreRaw(st store.Store) (res T, err error) {
 	defer func() {
 		if r := recover(); r != nil {
 			err = fmt.Errorf("dump panic: %v", r)
